@@ -23,7 +23,8 @@ def tasks(tier):
     mg = [Task('props.wire:run', name='C10/wire.%s.ns%s.%s' % ('filter_pops' if vf_ else 'marginalize', '_'.join(map(str, ns)), '_'.join(map(str, ov))), fname='c10_marginalize',
                kwargs=dict(ns=list(ns), over=list(ov), via_filter=vf_), timeout=300)
           for ns, ov, vf_ in (((2, 1), (0,), False), ((1, 2, 1), (2, 0), False), ((1, 2, 1), (1,), False), ((1, 1, 2, 1), (3, 1), False), ((1, 2, 1), (3, 1), True), ((2, 1, 1), (2,), True))]
-    return [Task('props.wire:run', name='C10/wire.c10_reorder_pops', fname='c10_reorder_pops', timeout=300)] + comb + mc + mg + bounded_tasks('C10', tier)
+    sc = [Task('props.wire:run', name='C10/wire.scramble.ns%s' % '_'.join(map(str, ns)), fname='c10_scramble', kwargs=dict(ns=list(ns)), timeout=300) for ns in ((1, 2), (2, 1, 1))]
+    return [Task('props.wire:run', name='C10/wire.c10_reorder_pops', fname='c10_reorder_pops', timeout=300)] + comb + mc + mg + sc + bounded_tasks('C10', tier)
 
 
 MANIFEST_ENTRY = dict(
